@@ -320,6 +320,8 @@ func ruleGL() Rule {
 					return true
 				})
 				switch {
+				case okErr && hasAppend && name == "os.Stat":
+					rr.Bad(f, key, ifs.Pos(), "the existence test of the literal arm follows symbolic links (os.Stat): a dangling link named literally is dropped, while the pattern arm, which lists the directory, returns the same entry - the two arms disagree about what exists")
 				case okErr && hasAppend:
 					rr.OK(f, key, ifs.Pos(), "exists", "the literal path is appended only when "+name+" succeeded")
 				case !hasAppend:
